@@ -62,7 +62,9 @@ def build(claimed):
         }],
         'checks': checks,
         'not_applicable': na,
-        'notes': 'See DESIGN.md. Exit codes of ./check: 0 held, 1 violation (VIOLATION line), 2 harness error (never counts as held).',
+        'notes': 'See DESIGN.md. Exit codes of ./check: 0 held, 1 violation (VIOLATION line), 2 harness error (never counts as held). '
+                 'Genuine defects found and repaired in /repo as unguarded "fix:" commits (known_findings.json, DESIGN.md section 6): '
+                 'dff3adb 85b658a 92568ef 3889ccc 7a570d9 fac23f3 ab540ed a91e832. No hook commit exists: every seam is patched from outside the package.',
     }
 
 if __name__ == '__main__':
